@@ -45,7 +45,7 @@ why = {
  "C10-collection-lowerdim-centroid": "the repair needs a new traversal of nested collections (≈30 lines, a new type switch): larger than a minimal fix",
 }
 for f in kf.get("findings", []):
-    out.append(f"| {f['id']} | {f['what'][:400]} | {why.get(f['id'], f.get('why_not_fixed', 'see known_findings.json'))} |")
+    out.append(f"| {f['id']} | {f['what'][:400]} | {f.get('why_not_fixed') or why[f['id']]} |")
 out.append("")
 out.append("### 9.7 Seeded changes and the checks that catch them\n")
 out.append("Each change was written by a fresh sub-agent that saw only the property text and its own worktree; it compiles, passes the whole existing test suite, and breaks the property (its own demonstration fails with it and passes without it — re-confirmed by `seedcheck.py`, see `seeded/<id>/meta.json`).\n")
@@ -113,6 +113,6 @@ s = open(f"{R}/DESIGN.md").read()
 i = s.find("\n## 9. As built")
 if i >= 0:
     s = s[:i]
-s = s.rstrip("\n") + "\n\n---------------------------------------------------------------------------\n\n" + "\n".join(out) + "\n"
+s = s.rstrip("-\n ") + "\n\n---------------------------------------------------------------------------\n\n" + "\n".join(out) + "\n"
 open(f"{R}/DESIGN.md", "w").write(s)
 print("DESIGN.md §9 regenerated:", len(out), "lines")
